@@ -141,6 +141,10 @@ class HeapMaintenance(Harness):
                 for sv in (2, 4):
                     out.append({"is_buy": is_buy, "K": 5, "kinds": "".join("1" if i in pos else "0" for i in range(5)),
                                 "ops": [], "deep": True, "sweep_market": False, "sweep_volume": sv})
+            # five and six resting limit orders in any arrival order, nothing in between, then the sweep (a book that
+            # only ever saw insertions)
+            for K in (5, 6):
+                out.append({"is_buy": is_buy, "K": K, "kinds": "0" * K, "ops": [], "deep": True, "sweep_market": False})
             if tier == "thorough":
                 for K in (5, 6, 7):
                     ops = [["C", i] for i in range(K)] + ["R"]
